@@ -297,18 +297,18 @@ def gen_jobs(rng, quick, consume):
     o0 = {"tables": 0, "consume_input": consume, "limit": lim}
     ol = {"tables": 1, "consume_input": consume, "lexdis": True, "limit": lim}
     opts = [o1, o0]
-    jobs = glrcases.gen_jobs(rng, True, opts, nrand=(40 if quick else (450 if consume else 250)),
+    jobs = glrcases.gen_jobs(rng, True, opts, nrand=(30 if quick else (450 if consume else 250)),
                              maxlen=(4 if quick else 6), layout_variants=True)
     if quick:
         # keep the quick tier small: sample the inputs of every job
         small = []
         for (n, t, inputs, o) in jobs:
             inputs = list(inputs)
-            if len(inputs) > 14:
-                keep = inputs[:4]
-                rest = inputs[4:]
+            if len(inputs) > 9:
+                keep = inputs[:3]
+                rest = inputs[3:]
                 rng.shuffle(rest)
-                inputs = keep + rest[:10]
+                inputs = keep + rest[:6]
             small.append((n, t, inputs, o))
         jobs = small
     for name, text, alpha in glrcases.LEXICAL:
@@ -478,6 +478,7 @@ def run(ctx, consume):
     rng = ctx.rng
     t0 = time.time()
     jobs = gen_jobs(rng, quick, consume)
+    t_gen = time.time() - t0
     st = {"glr_model_cases": 0, "glr_model_agree": 0, "glr_model_disagree": 0, "skipped": {},
           "forests": 0, "rejects": 0, "lexical_ambiguity_cases": 0, "nullable_grammar_cases": 0,
           "cyclic_forests": 0, "forest_sizes": {"1-5": 0, "6-20": 0, "21-100": 0, ">100": 0},
@@ -493,13 +494,18 @@ def run(ctx, consume):
             t1 = time.time()
             results = pool.map(worker, jobs[b0:b0 + B], chunksize=1)
             st["timing_s"]["impl"] += time.time() - t1
+            t2 = time.time()
             _batch(ctx, consume, quick, results, st, xsample_c, xsample_o)
+            st["timing_s"]["batch"] = round(st["timing_s"].get("batch", 0.0) + time.time() - t2, 1)
             del results
     st["timing_s"]["impl"] = round(st["timing_s"]["impl"], 1)
     st["timing_s"]["model"] = round(st["timing_s"]["model"], 1)
     mcases, outs = xsample_c, xsample_o
     # cross-check a sample of the extracted model's outputs inside Coq
+    st["timing_s"]["gen_jobs"] = round(t_gen, 1)
+    t3 = time.time()
     nx, xok, xlog = common.coq_crosscheck(ctx.pid + "glr", mcases, outs, rng, sample=12 if quick else 40)
+    st["timing_s"]["crosscheck"] = round(time.time() - t3, 1)
     if not xok:
         ctx.violation("extraction cross-check of the GLR model failed", {"log": xlog}, no_input=True,
                       key="glr-xcheck")
